@@ -100,6 +100,9 @@ func tag(n int, ref string) ocicheck.Op { return ocicheck.Op{Kind: "tag", Node: 
 func tagAnn(n int, ref string) ocicheck.Op {
 	return ocicheck.Op{Kind: "tag", Node: n, Ref: ref, Ann: map[string]string{"org.test.note": "annotated", ocispec.AnnotationRefName: "misleading"}}
 }
+func tagResolved(n int, ref string) ocicheck.Op {
+	return ocicheck.Op{Kind: "tag", Node: n, Ref: ref, Resolved: true}
+}
 func untag(ref string) ocicheck.Op { return ocicheck.Op{Kind: "untag", Ref: ref} }
 func del(n int) ocicheck.Op        { return ocicheck.Op{Kind: "delete", Node: n} }
 func ops(parts ...any) []ocicheck.Op {
@@ -154,6 +157,9 @@ func scripted() []Script {
 		S("delete-untagged-cascade", true, true, nil, ops(imgM0, imgM1, tag(m1, "v2")), del(m0)),
 		S("delete-layer-nogc", true, false, nil, ops(imgM0, tag(m0, "v1")), del(b0)),
 		S("delete-tagged-blob", true, true, nil, ops(push(b0), tag(b0, "blobtag"), imgM1, tag(m1, "v2")), del(b0)),
+		S("delete-blob-tagged-via-resolve", true, true, nil, ops(imgM0, tag(m0, "v1"), tagResolved(b0, "keep")), del(b0)),
+		S("delete-cascade-spares-blob-tagged-via-resolve", true, true, nil, ops(imgM0, imgM1, tag(m1, "v2"), tagResolved(b0, "keep"), tagResolved(c0, "cfg")), del(m0)),
+		S("tag-blob-via-resolve", true, true, nil, ops(imgM0, tag(b0, "typed")), tagResolved(b0, "keep")),
 		S("delete-index-shared-children", true, true, nil, ops(imgM0, imgM1, push(i0), tag(i0, "idx"), tag(m1, "keep")), del(i0)),
 		S("delete-with-tagged-referrer", true, true, nil, ops(imgM0, refs, tag(m0, "v1"), tag(r0, "sig")), del(m0)),
 		S("delete-referrer", true, true, nil, ops(imgM0, refs, tag(m0, "v1")), del(r0)),
